@@ -45,6 +45,8 @@ struct Hist {
     /// flag octet as the wire carries it (value bits folded in for binary types)
     flags: u8,
     time: u64,
+    /// value of the ledger counter when this value was written
+    c: u64,
 }
 
 #[derive(Default)]
@@ -59,6 +61,8 @@ struct Ledger {
     executed: Vec<(usize, u16, f64)>,
     /// values of `counter` at which a database transaction ended: the only states a READ can observe
     txn_ends: BTreeSet<u64>,
+    /// time stamps are unique but not monotonic (every third one lies about 40 s ahead of its neighbours)
+    jitter_time: bool,
 }
 
 type Shared = Arc<Mutex<Ledger>>;
@@ -75,7 +79,11 @@ fn write_point(
 ) {
     led.counter += 1;
     let c = led.counter;
-    let time = 1_000_000 + c;
+    let time = if led.jitter_time {
+        1_000_000 + 2 * c + if c % 3 == 0 { 40_001 } else { 0 }
+    } else {
+        1_000_000 + c
+    };
     let raw_flags: u8 = if r.chance(2, 3) {
         0x01
     } else {
@@ -92,6 +100,7 @@ fn write_point(
         bytes: vec![],
         flags: raw_flags,
         time,
+        c,
     };
     let info = match t {
         0 => {
@@ -475,8 +484,14 @@ async fn scenario(a: &ShardArgs, idx: u64) {
     let periodic = !unsol || r.bool();
     // some updates change the static value without producing an event
     let static_only = r.bool();
+    // binary and double-bit events in the relative-time variations, with time stamps that are not monotonic
+    let relative_time = r.bool();
     let t_begin = Instant::now();
     let led: Shared = Arc::new(Mutex::new(Ledger::default()));
+    led.lock().unwrap().jitter_time = relative_time;
+    if relative_time {
+        out::count("scenarios_with_relative_time_events", 1);
+    }
     // ---- outstation
     let out_addr = EndpointAddress::try_new(1024).unwrap();
     let master_addr = EndpointAddress::try_new(1).unwrap();
@@ -529,7 +544,11 @@ async fn scenario(a: &ShardArgs, idx: u64) {
                     cls(0),
                     BinaryInputConfig::new(
                         StaticBinaryInputVariation::Group1Var2,
-                        EventBinaryInputVariation::Group2Var2,
+                        if relative_time {
+                            EventBinaryInputVariation::Group2Var3
+                        } else {
+                            EventBinaryInputVariation::Group2Var2
+                        },
                     ),
                 );
                 db.add(
@@ -537,7 +556,11 @@ async fn scenario(a: &ShardArgs, idx: u64) {
                     cls(1),
                     DoubleBitBinaryInputConfig::new(
                         StaticDoubleBitBinaryInputVariation::Group3Var2,
-                        EventDoubleBitBinaryInputVariation::Group4Var2,
+                        if relative_time {
+                            EventDoubleBitBinaryInputVariation::Group4Var3
+                        } else {
+                            EventDoubleBitBinaryInputVariation::Group4Var2
+                        },
                     ),
                 );
                 db.add(
@@ -1070,8 +1093,8 @@ async fn scenario(a: &ShardArgs, idx: u64) {
                 let mut spans: Vec<(u64, u64)> = vec![];
                 for (k, h) in hs.iter().enumerate() {
                     if matches_hist(rc, h, t) {
-                        let from = h.time - 1_000_000;
-                        let to = hs.get(k + 1).map(|n| n.time - 1_000_000).unwrap_or(u64::MAX);
+                        let from = h.c;
+                        let to = hs.get(k + 1).map(|n| n.c).unwrap_or(u64::MAX);
                         spans.push((from, to));
                     }
                 }
